@@ -1,5 +1,6 @@
 // C18 round-trip cases: extras (CARTree, RBFLayer, Centroids, DropoutLayer, PenalizingEvaluator, BinaryLayer, BinaryRBM).
 #include "c18_rt.h"
+#include "c18_behave.h"
 
 #include <shark/Core/Random.h>
 #include <shark/Models/Trees/CARTree.h>
@@ -56,6 +57,18 @@ template<class L> void buildTree(CARTree<L>& t, Prng& r, std::size_t depth, std:
 	growTree(t, r, 0, depth, inDim, labDim);
 }
 
+// the tree can be walked on the probes: children after parents, attribute and label indices in range
+template<class L> bool treeOk(CARTree<L> const& t, RealMatrix const& probes, std::size_t maxLabels) {
+	bool ok = t.numberOfNodes() > 0 && t.inputShape().numElements() == probes.size2();
+	for (std::size_t k = 0; k != t.numberOfNodes(); ++k) {
+		typename CARTree<L>::Node const& n = t.getNode(k);
+		if (n.leftId != 0) ok = ok && n.leftId < t.numberOfNodes() && n.rightIdOrIndex < t.numberOfNodes() && n.attributeIndex < probes.size2()
+			&& n.leftId > k && n.rightIdOrIndex > k;
+		else ok = ok && n.rightIdOrIndex < maxLabels;
+	}
+	return ok;
+}
+
 // number of labels is not accessible; every leaf's label index is checked against `maxLabels`
 template<class L> void obsTree(Obs& o, CARTree<L> const& t, RealMatrix const& probes, std::size_t maxLabels) {
 	o.shape("inputShape", t.inputShape());
@@ -95,6 +108,12 @@ template<class L> void treeCase(Ctx& c, std::string const& variant) {
 	obsTree(c.A, a, probes, maxLabels);
 	c.transfer(a, b);
 	obsTree(c.B, b, probes, maxLabels);
+	CARTree<L> d;
+	c.transfer(a, d);
+	std::vector<Target<CARTree<L> > > ts;
+	ts.push_back(Target<CARTree<L> >("default", d, treeOk(d, probes, maxLabels)));
+	ts.push_back(Target<CARTree<L> >("other", b, treeOk(b, probes, maxLabels)));
+	compareModelBehaviour(c, a, treeOk(a, probes, maxLabels), ts, probes);
 }
 
 // ---------------- RBFLayer ----------------
@@ -133,6 +152,12 @@ void rbfCase(Ctx& c, std::string const& variant) {
 	obsRbf(c.A, a, probes);
 	c.transfer(a, b);
 	obsRbf(c.B, b, probes);
+	RBFLayer d;
+	c.transfer(a, d);
+	std::vector<Target<RBFLayer> > ts;
+	ts.push_back(Target<RBFLayer>("default", d, d.centers().size2() == probes.size2() && d.gamma().size() == d.centers().size1()));
+	ts.push_back(Target<RBFLayer>("other", b, b.centers().size2() == probes.size2() && b.gamma().size() == b.centers().size1()));
+	compareModelBehaviour(c, a, true, ts, probes);
 }
 
 // ---------------- Centroids ----------------
@@ -179,6 +204,10 @@ void obsDropout(Obs& o, DropoutLayer<RealVector> const& m, random::rng_type& rng
 	m.eval(probes, out);
 	o.mat("eval", out);
 }
+struct Reseed {
+	random::rng_type* rng; unsigned seed;
+	void operator()() const { rng->seed(seed); }
+};
 void dropoutCase(Ctx& c, std::string const&) {
 	Prng r(c.seed);
 	std::size_t d = r.range(2, 5);
@@ -189,6 +218,15 @@ void dropoutCase(Ctx& c, std::string const&) {
 	obsDropout(c.A, a, rngA, probes, (unsigned)c.seed + 5);
 	c.transfer(a, b);
 	obsDropout(c.B, b, rngB, probes, (unsigned)c.seed + 5);
+	// all advertised behaviours; no default constructor: the minimal layer around its own external generator.
+	// The generator is external state: re-seeded before every evaluation.
+	random::rng_type rngD;
+	DropoutLayer<RealVector> dl(Shape(), 0.5, rngD);
+	c.transfer(a, dl);
+	Reseed pa = {&rngA, (unsigned)c.seed + 6}, pb = {&rngB, (unsigned)c.seed + 6}, pd = {&rngD, (unsigned)c.seed + 6};
+	Obs ba = modelBehaviour(a, probes, true, true, pa);
+	pairBehaviour(c, "default", ba, modelBehaviour(dl, probes, dl.inputShape().numElements() == probes.size2(), true, pd));
+	pairBehaviour(c, "other", ba, modelBehaviour(b, probes, b.inputShape().numElements() == probes.size2(), true, pb));
 }
 
 
@@ -239,6 +277,10 @@ void binaryLayerCase(Ctx& c, std::string const& variant) {
 // ---------------- BinaryRBM ----------------
 // The RBM streams the state of its random generator, so the generator is NOT re-seeded here: after the
 // round trip the restored RBM's generator must continue like the original's.
+bool rbmOk(BinaryRBM const& m, RealMatrix const& probes) {
+	return m.numberOfVN() == probes.size2() && m.numberOfHN() == probes.size2()
+		&& m.weightMatrix().size1() == probes.size2() && m.weightMatrix().size2() == probes.size2();
+}
 void obsRbm(Obs& o, BinaryRBM const& m, random::rng_type& rng, RealMatrix const& probes) {
 	o.u("numberOfVN", m.numberOfVN());
 	o.u("numberOfHN", m.numberOfHN());
@@ -289,6 +331,15 @@ void rbmCase(Ctx& c, std::string const& variant) {
 	c.transfer(a, b);
 	obsRbm(c.A, a, rngA, probes);
 	obsRbm(c.B, b, rngB, probes);
+	// all advertised behaviours, also for a restore into the RBM as constructed (no structure); the generator state is
+	// streamed, so a, b and d continue from the same state here
+	random::rng_type rngD; rngD.seed((unsigned)c.seed + 2017);
+	BinaryRBM d(rngD);
+	c.transfer(a, d);
+	std::vector<Target<BinaryRBM> > ts;
+	ts.push_back(Target<BinaryRBM>("default", d, rbmOk(d, probes)));
+	ts.push_back(Target<BinaryRBM>("other", b, rbmOk(b, probes)));
+	compareModelBehaviour(c, a, rbmOk(a, probes), ts, probes);
 }
 
 } // namespace
